@@ -27,11 +27,11 @@ type cand struct {
 
 // FormatSamples are valid example strings per format.
 var FormatSamples = map[string][]string{
-	"date":      {"2024-02-29", "1999-12-31"},
+	"date":      {"2024-02-29", "1999-12-31", "0001-01-01", "9999-12-31"},
 	"time":      {"12:34:56", "00:00:00", "23:59:59.789"},
-	"date-time": {"2024-02-29T12:34:56Z", "1999-12-31T23:59:59.123456789+02:00"},
-	"ipv4":      {"10.0.0.1", "255.255.255.255"},
-	"ipv6":      {"::1", "2001:db8::8a2e:370:7334"},
+	"date-time": {"2024-02-29T12:34:56Z", "1999-12-31T23:59:59.123456789+02:00", "0001-01-01T00:00:00Z", "9999-12-31T23:59:59Z"},
+	"ipv4":      {"10.0.0.1", "255.255.255.255", "0.0.0.0"},
+	"ipv6":      {"::1", "2001:db8::8a2e:370:7334", "::"},
 }
 
 var otherTypeValues = []struct {
